@@ -85,6 +85,36 @@ type Step struct {
 	P     int    `json:"p"`
 	Entry string `json:"entry"`
 	On    string `json:"on,omitempty"`
+	// Boom makes this render FAIL after the page's (layout's) marked elements were reached: every
+	// page body ends with two constructs that are inert unless render data switches them on -
+	// "filter": {{ x | nosuchfilter }}, "include": an include of a missing file - and every layout
+	// ends with the former ("layout"; only takes effect when a layout is rendered). A failing step
+	// must return an error (nothing else is asserted about it); the steps after it must be
+	// unaffected ("every render starts afresh").
+	Boom string `json:"boom,omitempty"`
+}
+
+var booms = []string{"filter", "include", "layout"}
+
+const pageTail = `<p data-m="bf" v-if="boomf">{{ x | nosuchfilter }}</p>
+<div data-m="bi" v-if="boomi"><template include="missing.vuego"></template></div>
+`
+const layoutTail = `<p data-m="bl" v-if="booml">{{ x | nosuchfilter }}</p>
+`
+
+// fails says whether the model expects step s to return an error.
+func fails(c *Case, s Step) bool {
+	switch s.Boom {
+	case "filter", "include":
+		return true
+	case "layout":
+		if !layoutAware(s.Entry) {
+			return false
+		}
+		_, base := c.Layouts["base"]
+		return c.Pages[s.P].Layout != "" || base
+	}
+	return false
 }
 
 // Case is a site and a history on one engine.
@@ -185,6 +215,7 @@ func pageBody(i int, p Page) string {
 	var sb strings.Builder
 	fmt.Fprintf(&sb, "<i data-m=\"pg%d\">p</i>\n", i)
 	src(p.Items, &sb)
+	sb.WriteString(pageTail)
 	return sb.String()
 }
 
@@ -216,6 +247,7 @@ func files(c Case) map[string]string {
 		src(l.Before, &sb)
 		fmt.Fprintf(&sb, "<main data-m=\"m%s\" v-html=\"content\"></main>\n", name)
 		src(l.After, &sb)
+		sb.WriteString(layoutTail)
 		if l.Doc {
 			sb.WriteString("</body>\n</html>\n")
 		}
@@ -224,10 +256,11 @@ func files(c Case) map[string]string {
 	return out
 }
 
-func data() map[string]any {
+func data(s Step) map[string]any {
 	return map[string]any{
 		"n0": []int{}, "n1": []int{1}, "n2": []int{1, 2}, "n3": []int{1, 2, 3},
-		"t": true, "f": false,
+		"t": true, "f": false, "x": 1,
+		"boomf": s.Boom == "filter", "boomi": s.Boom == "include", "booml": s.Boom == "layout",
 	}
 }
 
@@ -352,6 +385,9 @@ func validate(c Case) error {
 			if _, ok := files(c)[s.On]; !ok || !stringy(s.Entry) {
 				return fmt.Errorf("bad step %+v", s)
 			}
+		}
+		if s.Boom != "" && indexOf(booms, s.Boom) < 0 {
+			return fmt.Errorf("bad step %+v", s)
 		}
 	}
 	return nil
@@ -503,19 +539,19 @@ func renderStep(tpl vuego.Template, vue *vuego.Vue, c *Case, s Step) (string, er
 	}
 	switch s.Entry {
 	case "load":
-		err = tpl.Load(name).Fill(data()).Render(ctx, &buf)
+		err = tpl.Load(name).Fill(data(s)).Render(ctx, &buf)
 	case "file":
-		err = tpl.New().Fill(data()).RenderFile(ctx, &buf, name)
+		err = tpl.New().Fill(data(s)).RenderFile(ctx, &buf, name)
 	case "vue":
-		err = vue.Render(&buf, name, data())
+		err = vue.Render(&buf, name, data(s))
 	case "frag":
-		err = vue.RenderFragment(&buf, name, data())
+		err = vue.RenderFragment(&buf, name, data(s))
 	case "string":
-		err = recv().Fill(data()).RenderString(ctx, &buf, pageBody(s.P, c.Pages[s.P]))
+		err = recv().Fill(data(s)).RenderString(ctx, &buf, pageBody(s.P, c.Pages[s.P]))
 	case "byte":
-		err = recv().Fill(data()).RenderByte(ctx, &buf, []byte(pageBody(s.P, c.Pages[s.P])))
+		err = recv().Fill(data(s)).RenderByte(ctx, &buf, []byte(pageBody(s.P, c.Pages[s.P])))
 	case "reader":
-		err = recv().Fill(data()).RenderReader(ctx, &buf, strings.NewReader(pageBody(s.P, c.Pages[s.P])))
+		err = recv().Fill(data(s)).RenderReader(ctx, &buf, strings.NewReader(pageBody(s.P, c.Pages[s.P])))
 	default:
 		err = fmt.Errorf("unknown entry %q", s.Entry)
 	}
@@ -577,6 +613,12 @@ func check(c Case) error {
 		at := fmt.Sprintf("step %d (page %s via %s)", i, pageName(s.P), s.Entry)
 		if s.On != "" {
 			at = fmt.Sprintf("step %d (body of page %s via %s on a template loaded from %s)", i, pageName(s.P), s.Entry, s.On)
+		}
+		if fails(&c, s) {
+			if err == nil {
+				return fmt.Errorf("%s: the render was made to fail (%s) but returned no error", at, s.Boom)
+			}
+			continue // nothing else is asserted about a failed render
 		}
 		if err != nil {
 			return fmt.Errorf("%s: render failed: %v", at, err)
@@ -721,7 +763,22 @@ func classify(c Case) (bool, []string) {
 	entriesUsed := map[string]bool{}
 	repeat := false
 	seenStep := map[Step]bool{}
+	failedBefore := map[int]bool{}
+	anyFailed := false
 	for i, s := range c.Steps {
+		if fails(&c, s) {
+			set["failing-step="+s.Boom] = true
+			failedBefore[s.P] = true
+			anyFailed = true
+			entriesUsed[s.Entry] = true
+			continue
+		}
+		if failedBefore[s.P] {
+			set["good-render-after-failed-render-of-same-page"] = true
+		}
+		if anyFailed {
+			set["good-render-after-a-failed-render"] = true
+		}
 		e := expect(&c, s)
 		pagesUsed[s.P] = true
 		entriesUsed[s.Entry] = true
@@ -911,7 +968,14 @@ func historyFor(k int) []Step {
 	if stringy(e) {
 		last.On = "components/A.vuego" // the string is rendered on a template object loaded from a file it includes
 	}
-	return []Step{{P: 0, Entry: e}, {P: 0, Entry: e}, {P: 1, Entry: o}, last}
+	// page 0 twice, a failing render of it, page 0 again, the other page, a second failing render
+	// (other cause, other entry), page 0 once more
+	return []Step{
+		{P: 0, Entry: e}, {P: 0, Entry: e},
+		{P: 0, Entry: e, Boom: booms[k%len(booms)]}, {P: 0, Entry: e},
+		{P: 1, Entry: o},
+		{P: 0, Entry: entries[(k+1)%len(entries)], Boom: booms[(k+1)%len(booms)]}, last,
+	}
 }
 
 // subsets of size 1..max of names, in a fixed order.
@@ -1090,7 +1154,7 @@ func genCase() func(t *rapid.T) Case {
 			}
 		}
 		// every page is rendered at least once, then arbitrary further steps
-		nSteps := rapid.IntRange(nPages, 6).Draw(t, "steps")
+		nSteps := rapid.IntRange(nPages, 8).Draw(t, "steps")
 		for i := 0; i < nSteps; i++ {
 			s := Step{P: i, Entry: rapid.SampledFrom(entries).Draw(t, "entry")}
 			if i >= nPages {
@@ -1102,6 +1166,9 @@ func genCase() func(t *rapid.T) Case {
 					on = append(on, "components/"+n+".vuego")
 				}
 				s.On = rapid.SampledFrom(on).Draw(t, "on")
+			}
+			if rapid.IntRange(0, 3).Draw(t, "boom?") == 0 {
+				s.Boom = rapid.SampledFrom(booms).Draw(t, "boom")
 			}
 			c.Steps = append(c.Steps, s)
 		}
